@@ -263,7 +263,8 @@ func (c *MJButtonComponent) Render(w io.StringWriter) error {
 	if err := contentTag.RenderOpen(w); err != nil {
 		return err
 	}
-	if _, err := w.WriteString(textContent); err != nil {
+	// Author HTML inside the button gets the inline mj-style rules too, like mj-text content
+	if _, err := w.WriteString(c.ApplyInlineStylesToHTMLContent(textContent)); err != nil {
 		return err
 	}
 	if err := contentTag.RenderClose(w); err != nil {
